@@ -2,8 +2,9 @@
 //
 // Sections
 //
-//	f11         corpus witness of the open finding F11 (a waiting query over no partition never returns), replayed in a
-//	            child process because the spinning goroutine cannot be stopped; with its control (no wait timeout)
+//	f11         corpus witness of finding F11 (a waiting query over no partition never returned; fixed by 2ae8d4c — it must
+//	            answer empty at its timeout now), replayed in a child process because a spinning goroutine could not be
+//	            stopped; with its controls
 //	contract    unit: the library's WaitForNewData contract on a real journal against the Lean listener LTS
 //	            (returns at once iff pos < end; a flush wakes a subscribed waiter; cancel ends it)
 //	parked      reader in Querier.Query(WaitTimeout=5) at the end of 1..3 partitions, parked at the hook between its
@@ -256,7 +257,9 @@ func sectionF11(cases []f11Case) {
 		if !returned {
 			finding := ""
 			if c.Mode == "inproc" || c.Mode == "rpc" {
-				finding = "F11" // class: WaitTimeout > 0 and the FROM condition matches no partition
+				// class: WaitTimeout > 0 and the FROM condition matches no partition. Fixed by 2ae8d4c: a recurrence is still
+				// tagged, so that the check reports "the defect is back"
+				finding = "F11"
 			}
 			res.SpecFail(vh.SpecFailure{Section: "f11", Kind: "hang", Input: c, Impl: line, Spec: "an empty answer after about WaitTimeout seconds",
 				Model: model, ImplEqModel: returned == modelAnswers, Finding: finding,
@@ -265,9 +268,9 @@ func sectionF11(cases []f11Case) {
 			// it answers: it must not answer before the timeout
 			var n, ms int
 			fmt.Sscanf(line, "returned %d %d", &n, &ms)
-			if n != 0 || ms < 800 {
-				res.SpecFail(vh.SpecFailure{Section: "f11", Kind: "early-empty", Input: c, Impl: line, Spec: "empty, not before the timeout",
-					What: "a waiting query over no partitions answered before its timeout"})
+			if n != 0 || ms < 800 || ms > 1000+int(margin/time.Millisecond) {
+				res.SpecFail(vh.SpecFailure{Section: "f11", Kind: "wrong-empty-answer", Input: c, Impl: line, Spec: "empty, about WaitTimeout (1 s) after the request",
+					What: "a waiting query over no partitions must answer empty at its timeout — not before, not much later"})
 			}
 		}
 	}
